@@ -35,8 +35,22 @@ type mixEntry struct {
 
 // propMix: the property-specific mixture of profiles (DESIGN §6).
 var propMix = map[string][]mixEntry{
+	"C02": {{"mixed", "", 3}, {"long", "", 3}, {"timeout", "", 1}, {"staking", "", 1}, {"authz", "", 1}},
+	"C04": {{"mixed", "", 5}, {"long", "", 2}, {"timeout", "", 1}},
+	"C05": {{"timeout", "", 4}, {"mixed", "", 3}},
+	"C06": {{"mixed", "", 4}, {"long", "", 2}, {"reward", "", 2}},
+	"C07": {{"mixed", "", 4}, {"long", "", 2}, {"reward", "", 1}},
+	"C08": {{"reward", "", 5}, {"mixed", "", 2}, {"long", "", 1}},
+	"C09": {{"authz", "", 6}, {"mixed", "", 2}},
+	"C10": {{"authz", "", 6}, {"mixed", "", 2}},
+	"C11": {{"long", "", 6}, {"mixed", "", 2}},
+	"C12": {{"timeout", "", 6}, {"mixed", "", 2}},
 	"C13": {{"mixed", "", 6}, {"timeout", "", 2}, {"long", "", 1}},
 	"C14": {{"mixed", "", 6}, {"timeout", "", 2}, {"long", "", 1}},
+	"C15": {{"mixed", "", 4}, {"timeout", "", 3}, {"staking", "", 1}},
+	"C16": {{"authz", "", 3}, {"mixed", "", 3}, {"timeout", "", 2}},
+	"C19": {{"faults", "", 6}, {"mixed", "", 1}},
+	"C20": {{"staking", "", 7}, {"mixed", "", 1}},
 }
 
 // mandatory probes per property: a check that never reaches them explored nothing.
